@@ -41,3 +41,14 @@ void lemma_cyl_div(void)
   __CPROVER_assert(ir * (F + r * F_r) + G_z == F_r + F * ir + G_z, "cylindrical divergence expanded");
   __CPROVER_assert(0, "canary");
 }
+
+/* C08 Sod: with the shock speed vs = vm / (1 - rhor/rhomr) (as the code and the spec form it) mass is conserved across the shock
+ * (Rankine-Hugoniot, frame of the shock, gas at rest ahead):  rhor (0 - vs) == rhomr (vm - vs). */
+void lemma_sod_rh_mass(void)
+{
+  Sc rhor, rhomr, vm;
+  __CPROVER_assume(rhomr != 0 && rhomr != rhor);
+  Sc vs = vm * vinv(1 - rhor * vinv(rhomr));
+  __CPROVER_assert(rhor * (0 - vs) == rhomr * (vm - vs), "Rankine-Hugoniot mass flux across the shock");
+  __CPROVER_assert(0, "canary");
+}
